@@ -152,6 +152,12 @@ let () = iter_lines (fun line ->
       let s = mk_state [[Live (i2n 5)]; [Live (i2n 6)]; [Live (i2n 8)]; [Live (i2n 9)]; [Raw]; [Raw]] k in
       let (r, s') = Replace.kv_replace_relocate (cat_of ck) (cat_of cv) (loc 0 0) (loc 1 0) (loc 2 0) (loc 3 0) (loc 4 0) (loc 5 0) s in
       show r s'
+    | ["bucketadd"; _; n; k] ->
+      let n = int_of_string n and k = int_of_string k in
+      let s = mk_state_r [(10, 1); (11, n); (12, n + 1)] [[Live (i2n 7)]; lives 100 n @ [Raw]] k in
+      let (r, s') = Ctor.bucket_add_inplace (ObjMgr.creator_copy (loc 0 0)) s in
+      Printf.printf "cnt=%d " (n2i (s'.hp.regs (i2n 11)));
+      show_tree r s'
     | ["noderemove"; _; n; k; index] ->
       let n = int_of_string n and k = int_of_string k and index = int_of_string index in
       let cap = if n <= 2 then 2 else 4 in
